@@ -20,6 +20,7 @@ MCAlertLS == [ S1 |-> [a |-> "x", c |-> "x", i |-> "x"],
                S2 |-> [a |-> "x", c |-> "x", i |-> "y"],
                S3 |-> [a |-> "x", c |-> "y", d |-> "y"],
                B  |-> [a |-> "x", b |-> "x", c |-> "x"],
+               B2 |-> [a |-> "x", b |-> "x", c |-> "x", i |-> "y"],   \* a second alert matching both sides
                T  |-> [b |-> "x", c |-> "x"],
                T2 |-> [b |-> "x", c |-> "x", d |-> "y"],
                T3 |-> [b |-> "x", c |-> "y", d |-> "y"] ]
